@@ -281,6 +281,12 @@ func (w *World) StartOutcome() *Outcome {
 	for len(defQ) != 0 {
 		id := defQ[0]
 		defQ = defQ[1:]
+		for _, n := range w.Insts[id].InitLookups {
+			if w.Insts[n] != nil && !o.DefReach[n] {
+				o.DefReach[n] = true
+				defQ = append(defQ, n)
+			}
+		}
 		for _, f := range sdl.SortedKeys(o.Res[id]) {
 			r := o.Res[id][f]
 			var next []string
@@ -300,6 +306,12 @@ func (w *World) StartOutcome() *Outcome {
 	for len(possQ) != 0 {
 		id := possQ[0]
 		possQ = possQ[1:]
+		for _, n := range w.Insts[id].InitLookups {
+			if w.Insts[n] != nil && !o.PossReach[n] {
+				o.PossReach[n] = true
+				possQ = append(possQ, n)
+			}
+		}
 		for _, f := range sdl.SortedKeys(o.Res[id]) {
 			r := o.Res[id][f]
 			next := append([]string(nil), r.Cands...)
